@@ -187,7 +187,7 @@ def r3(ctx, R):
 
 
 def r4(ctx, R):
-    R.rule("C14.R4", "labelled DO termination is wired: the statement label is stripped and handed to the DO closer", floor=2, confirmed=3)
+    R.rule("C14.R4", "labelled DO termination is wired: the statement label is stripped and handed to the DO closer, which closes every DO sharing the label", floor=3, confirmed=4)
     from .c02 import file_class
 
     fc = file_class(ctx)
@@ -211,6 +211,21 @@ def r4(ctx, R):
         R.ok("C14.R4", pf.short, key(pf, ctx.m.enclosing_stmt(c)), loc(pf, c), "label handed to the closer")
     else:
         R.violation("C14.R4", pf.short, key(pf, ctx.m.enclosing_stmt(c)), loc(pf, c), "the stripped label does not reach the labelled-DO closer")
+    # one labelled statement ends every DO that names its label (do 10 i / do 10 j / 10 continue)
+    for q in ctx.r.resolve_call(pf, c)[1]:
+        g = ctx.m.funcs.get(q)
+        if g is None:
+            continue
+        pops = [x for x in calls_in(g.node) if isinstance(x.func, ast.Attribute) and x.func.attr == "pop" and isinstance(x.func.value, ast.Name) and "stack" in x.func.value.id]
+        for x in pops:
+            lp = ctx.m.parent.get(ctx.m.enclosing_stmt(x))
+            while lp is not None and not isinstance(lp, (ast.While, ast.For, ast.FunctionDef)):
+                lp = ctx.m.parent.get(lp)
+            stack = x.func.value.id
+            if isinstance(lp, ast.While) and f"{stack}[-1]" in unparse(lp.test) and any(isinstance(y, ast.Call) and isinstance(y.func, ast.Attribute) and y.func.attr == "end_scope" for y in ast.walk(lp)):
+                R.ok("C14.R4", g.short, "every DO sharing the label is closed", loc(g, lp), f"while ... == {stack}[-1]: end_scope; pop")
+            else:
+                R.violation("C14.R4", g.short, "every DO sharing the label is closed", loc(g, x), "the labelled terminal statement closes one DO only: with `do 10 i` / `do 10 j` / `10 continue` the outer loop stays open, END SUBROUTINE no longer matches and everything after it disappears from the outline")
     # the label pushed for `DO <label>` comes from the DO pattern's digit group
     do = ctx.p.named.get("DO")
     if do is not None and do.tree is not None:
